@@ -10,7 +10,7 @@ import multiprocessing
 import os
 import sys
 
-MAX_VIOL_PER_SHARD = 25
+MAX_PER_CLASS = 4
 MAX_SAMPLES = 6
 
 
@@ -19,7 +19,8 @@ class Acc(object):
         self.counters = collections.Counter()
         self.outcomes = collections.Counter()
         self.distinct = {}  # name -> set of small hashes
-        self.violations = []
+        self.vlist = {}
+        self.vcount = collections.Counter()
         self.samples = []
         self.notes = {}  # free-form, last writer wins
         self.bounds = {}
@@ -48,14 +49,27 @@ class Acc(object):
         return len(s) != n0
 
     def violation(self, part, msg, case, cls=None):
+        """record a violation; at most MAX_PER_CLASS examples are kept per
+        (part, class) so that a frequent class (e.g. a known finding) can
+        never crowd out a different one; every occurrence is counted"""
         self.counters["violations_total"] += 1
-        if len(self.violations) < MAX_VIOL_PER_SHARD:
-            self.violations.append({
-                "part": part,
-                "msg": msg,
-                "case": case,
-                "cls": cls or {}
-            })
+        cls = cls or {}
+        key = part + "|" + repr(sorted(cls.items()))
+        self.vcount[key] += 1
+        lst = self.vlist.setdefault(key, [])
+        if len(lst) < MAX_PER_CLASS:
+            lst.append({"part": part, "msg": msg, "case": case, "cls": cls})
+
+    @property
+    def violations(self):
+        out = []
+        for key in sorted(self.vlist):
+            out.extend(self.vlist[key])
+        return out
+
+    def violation_classes(self):
+        """[(count, [examples])] per (part, class)"""
+        return [(self.vcount[k], self.vlist[k]) for k in sorted(self.vlist)]
 
     def sample(self, s):
         if len(self.samples) < MAX_SAMPLES:
@@ -71,9 +85,10 @@ class Acc(object):
         self.outcomes.update(other.outcomes)
         for k, s in other.distinct.items():
             self.distinct.setdefault(k, set()).update(s)
-        room = 400 - len(self.violations)
-        if room > 0:
-            self.violations.extend(other.violations[:room])
+        self.vcount.update(other.vcount)
+        for k, lst in other.vlist.items():
+            mine = self.vlist.setdefault(k, [])
+            mine.extend(lst[:MAX_PER_CLASS - len(mine)])
         for s in other.samples:
             self.sample(s)
         for k, v in other.notes.items():
